@@ -95,6 +95,27 @@ claim("C07", "Every index/slice/make/division/array-conversion/unchecked-asserti
       "every loop gets a progress argument (counter towards an invariant bound, range, strictly shrinking string cursor through suffix summaries proved coinductively, or consumed input / guard already false); allocation sizes never derive from claimed lengths or decoded integers. Found and fixed defect F3. One site is discharged by a reviewed table entry (flate.Resetter assertion). Nil dereferences and callee internals are NOT decided.",
       NOTE, "path-sensitive interval/relational bounds analysis with loop invariants + termination (progress) analysis on go/ssa", "DESIGN.md §4 C07")
 
+# additions after the seeding rounds (DESIGN.md 9.7-9.8): appended to the claim text of the property
+EXTRA = {
+ "C01": " Also: class-invariant (assume/guarantee) bounds proof of the whole write path (14 <= w.pos <= len(writeBuf) established, preserved by every store, sufficient for every index/slice site; ncopy/flushFrame summaries are obligations; Write loops make progress); rules shared with C02/C03/C08/C17/C20 for whole frames, message boundaries, early bytes, readable control frames and exclusive buffers.",
+ "C02": " Also: raw-pointer word store of maskBytes stays inside the slice on all four build variants; frames are whole (critical-section protocol, private control-frame buffer); prepared payload snapshot is cut from a single frame; every compression level goes through flate; pooled deflaters and buffers are exclusive.",
+ "C03": " Also: every Read method layered over another reader returns the inner count and passes non-EOF errors on; early bytes buffered before the upgrade are replayed completely; control frames of every legal size are readable and dispatched.",
+ "C04": " Also: the 1002 close is sent with a deadline that is now + a positive constant; the violating frame's error reaches readers through every wrapper.",
+ "C05": " Also: reader wrappers (inflate source, JoinMessages, brNetConn) never turn a fault into a clean end or drop bytes delivered with it; default control handlers do not turn write faults into read errors.",
+ "C06": " Also: the running sum is written only by the frame parser and NextReader's reset; the 1009 close carries a constant reason of at most 123 bytes and a future deadline.",
+ "C07": " Also: destination-size preconditions of base64/hex codecs; candidate loop invariants for counters advanced by non-constant amounts are checked at every back edge.",
+ "C08": " Also: the pong/close reply is assembled in call-private memory, sent with a future deadline; every reader a Conn can get holds a maximal control frame.",
+ "C10": " Also: the transport's write deadline is touched only while holding the write lock; a refused control frame leaves no open writer behind.",
+ "C11": " Also: the transport's write deadline is touched only while holding the write lock.",
+ "C12": " Also: the default origin policy (shared with C13), the application's Sec-Websocket-Protocol entry is never copied into the reply, quoted-pair handling of the extension parser (pairs of consecutive scanner iterations).",
+ "C14": " Also: the capture buffer holds exactly 1024 bytes; the challenge-key error is known nil before any network activity.",
+ "C15": " Also: prepared messages are compressed only for connections that negotiated compression; every compression level produces a deflate stream.",
+ "C17": " Also: newConn calls nothing on a reader it is given.",
+ "C18": " Also: the first-hop TLS config is a clone of the caller's; the package never fills the trusted NetDialTLSContext hook itself.",
+ "C19": " Also: the {server, uncompressed} rendering is a single frame; the private rendering Conn writes only into memory allocated for that rendering.",
+ "C20": " Also: Get/Put on any value of the BufferPool type; functions that open a message for their own use end it on every path; beginMessage considers the previous writer on every return.",
+}
+
 REASON_NOT_BUILT = "rules for this property are not built yet in this revision (see DESIGN.md §4 for the planned static rules); nothing is claimed"
 
 def main():
@@ -105,6 +126,7 @@ def main():
         pid = p["id"]
         if pid in CLAIMED:
             text, note, tech, ref = CLAIMED[pid]
+            text += EXTRA.get(pid, "")
             checks.append({
                 "property_id": pid,
                 "quick_cmd": "./run.sh %s quick" % pid,
